@@ -26,7 +26,8 @@ def img_event(a, u, tid=1, kind='DYLD_uuid_map_a'):
 
 
 def sample_events(n, words, flags=8, tid=1):
-    evs = [E.ev('PERF_Event', 1, (flags, 1, 0, 0), tid), E.ev('PERF_STK_UHdr', 0, (1, n, 0, 0), tid)]
+    # header words 2 and 3 are not the frame count: they carry other values
+    evs = [E.ev('PERF_Event', 1, (flags, 1, 0, 0), tid), E.ev('PERF_STK_UHdr', 0, (1, n, 5, 3), tid)]
     for i in range(0, len(words), 4):
         w = list(words[i:i + 4])
         w += [0] * (4 - len(w))
@@ -63,8 +64,6 @@ def make_items():
     items.append(('samp-mixed', 7, tuple(WORDS[2:10]), None))
     # a sample window whose END was lost (START, header, data, no END): the next sample of the thread must not inherit anything
     items.append(('samp-unfinished', 4, tuple(WORDS[8:12]), None))
-    # a deep stack: 1000 frames announced, 1002 words supplied
-    items.append(('samp', 1000, tuple(0x1000 + (i * 37) % 0x2100 for i in range(1002)), None))
     return items
 
 
@@ -178,10 +177,10 @@ def judge_permutation(addr_uuid_set, perm, sample_idx):
 class C15(Check):
     pid = 'C15'
     level = 'model_checking'
-    rule = ('all histories of <=3 (quick) / <=4 (thorough) items over 36 item kinds: image announcements (4 addresses incl. adjacent '
+    rule = ('all histories of <=3 (quick) / <=4 (thorough) items over 35 item kinds: image announcements (4 addresses incl. adjacent '
             '0x2000/0x2001, x 2 uuids so that re-announcements with another identity occur), 4 launch windows with nested '
             'map/shared-cache records (cache above, below and between the images), samples with header count {0,1,3,4,5,9,14} x {0,1,2(+)} data records whose words are a-1, a, '
-            'a+1 for every load address plus 0 and 2^64-1, a sample without the user-stack flag, a sample on a second thread, a sample with thread-data and unrelated records between its header and data records, a 1000-frame sample, a sample window whose END was lost; '
+            'a+1 for every load address plus 0 and 2^64-1, a sample without the user-stack flag, a sample on a second thread, a sample with thread-data and unrelated records between its header and data records, a sample window whose END was lost; plus deep stacks of 2^k-1..2^k+1 data records (k=6..12) after an announcement; '
             'through TracesParser+CallstacksParser (all histories) and through PyKdebugParser.callstacks on a v2 dump (histories '
             '<=2 quick / <=3 thorough). Plus all alternating histories announcement-sample-announcement-sample (depth 4) over every announcement and the samples with >=4 frames. Plus: for every set of <=4 distinct images all permutations of announcement order give '
             'identical attribution. Reference: linear scan over the list of announced (address, uuid), first identity wins. '
@@ -199,6 +198,7 @@ class C15(Check):
         out.append(('perm',))
         imgs = [i for i, it in enumerate(ITEMS) if it[0] in ('img', 'launch')]
         out += [('alt', i) for i in imgs]
+        out += [('deep', k) for k in range(6, 13)]
         return out
 
     def run_shard(self, desc, acc):
@@ -217,6 +217,20 @@ class C15(Check):
                         acc.violation(bad[0], {'kind': 'hist', 'seq': list(seq), 'via': via, 'readable': [str(ITEMS[i][:3]) for i in seq]}, bad[1])
                     elif acc.want_sample() and nontrivial and len(seq) == 3:
                         acc.sample({'history': [str(ITEMS[i][:3]) for i in seq], 'via': via})
+        elif desc[0] == 'deep':
+            k = desc[1]
+            for nrec in (2 ** k - 1, 2 ** k, 2 ** k + 1):
+                words = tuple(0x1000 + (i * 37) % 0x2100 for i in range(4 * nrec))
+                ITEMS.append(('samp', 4 * nrec - 2, words, None))
+                try:
+                    seq = (0, len(ITEMS) - 1)
+                    for via in ('layers', 'facade'):
+                        bad = judge(seq, via)
+                        acc.case(nontrivial=True, transitions=nrec + 4, outcome=h64(('deep', nrec, via)))
+                        if bad:
+                            acc.violation(bad[0] + ':deep-stack', {'kind': 'deep', 'k': k, 'records': nrec, 'via': via}, bad[1])
+                finally:
+                    ITEMS.pop()
         elif desc[0] == 'alt':
             # announcement, sample, announcement, sample (depth 4) - a resolution remembered from the first sample must not survive
             # the second announcement
@@ -246,6 +260,11 @@ class C15(Check):
                     acc.violation('attribution-depends-on-announcement-order', {'kind': 'perm', 'set': [list(x) for x in s]}, {'distinct_results': len(results)})
 
     def replay(self, case):
+        if case['kind'] == 'deep':
+            from mc.run import Acc
+            acc = Acc()
+            self.run_shard(('deep', case['k']), acc)
+            return [(sig, v['cases'][0][1]) for sig, v in acc.violations.items()]
         if case['kind'] == 'hist':
             bad = judge(tuple(case['seq']), case['via'])
             return [bad] if bad else []
